@@ -1331,8 +1331,9 @@ class Kconfig(object):
                 )
             )
 
-            # val[:1]: the value may be empty (the alias of a number option that has no value is written as CONFIG_OLD=)
-            self.set_value_and_source(sym, val if val[:1] not in ("'", '"') else val[1:-1], filename)
+            # val[:1]: the value may be empty (the alias of a number option that has no value is written as CONFIG_OLD=).
+            # A quoted value was written through _escape(), like the value of the option it stands for
+            self.set_value_and_source(sym, val if val[:1] not in ("'", '"') else unescape(val[1:-1]), filename)
             return sym
 
         in_deprecated_block = False
